@@ -5,6 +5,8 @@ the extra degrees of freedom those properties need:
 
   shape [nx,ny,nz]   T steps   res   cf (courant factor; 0.5*sqrt(3) makes config.courant_number exactly 0.5)
   bounds {"min_x": "pml"|"periodic"|"pec"|"pmc"|"bloch", ...}  (missing: "periodic"),  pml (thickness),
+  faces  {"min_x": {"thickness": 3, "sigma_end": .., "kappa_end": .., "alpha_start": .., ...}, ...}  per-face PML
+         parameters through BoundaryConfig's per-face fields (missing entries: thickness `pml`, library defaults)
   kvec   [kx,ky,kz] bloch vector (rad/m)
   slabs  [{"lo","hi","eps": float | [ex,ey,ez] | [[xx,xy,xz],[yx,yy,yz],[zx,zy,zz]], "mu": ..., "sigma": ..., "name"}]
   sources   [{"kind":"dipole"|"mdipole","pos","pol","amp","wl","switch"} |
@@ -101,11 +103,22 @@ def build(sc: dict, config=None):
     volume = fdtdx.SimulationVolume(partial_grid_shape=tuple(sc["shape"]))
     objects.append(volume)
     bounds = {f: sc.get("bounds", {}).get(f, "periodic") for f in FACES}
-    bcfg = fdtdx.BoundaryConfig.from_uniform_bound(
-        thickness=sc.get("pml", 4),
-        override_types={f: b for f, b in bounds.items() if b != "pml"},
-        bloch_vector=tuple(float(k) for k in sc.get("kvec", (0.0, 0.0, 0.0))),
-    )
+    if sc.get("faces"):
+        bkw = {"bloch_vector": tuple(float(k) for k in sc.get("kvec", (0.0, 0.0, 0.0)))}
+        for f in FACES:
+            sfx = f.replace("_", "")     # min_x -> minx
+            bkw[f"boundary_type_{sfx}"] = bounds[f]
+            par = dict(sc["faces"].get(f, {}))
+            bkw[f"thickness_grid_{sfx}"] = int(par.pop("thickness", sc.get("pml", 4)))
+            for k, v in par.items():     # kappa_start/end/order, alpha_*, sigma_*
+                bkw[f"{k}_{sfx}"] = float(v)
+        bcfg = fdtdx.BoundaryConfig(**bkw)
+    else:
+        bcfg = fdtdx.BoundaryConfig.from_uniform_bound(
+            thickness=sc.get("pml", 4),
+            override_types={f: b for f, b in bounds.items() if b != "pml"},
+            bloch_vector=tuple(float(k) for k in sc.get("kvec", (0.0, 0.0, 0.0))),
+        )
     bdict, clist = fdtdx.boundary_objects_from_config(bcfg, volume)
     objects.extend(bdict.values())
     constraints.extend(clist)
